@@ -759,7 +759,8 @@ func (r *Reconciler) reconcileApply(ctx context.Context, proposal *configapi.Pro
 			config.Status.Applied.Values = make(map[string]*configapi.PathValue)
 		}
 		for path, changeValue := range updatedChangeValues {
-			config.Status.Applied.Values[path] = changeValue
+			// as for the committed values: a value applied beneath a path that was deleted earlier revives that path
+			_, _ = applyChangeToConfig(config.Status.Applied.Values, path, changeValue)
 		}
 
 		if err := r.configurations.UpdateStatus(ctx, config); err != nil {
